@@ -201,6 +201,7 @@ typedef struct {
 	uint64_t cases;
 	uint64_t start;
 	int64_t only;          // >= 0: run just this case, verbosely
+	uint64_t skip[64]; unsigned nskip;   // --skip K (repeatable): cases a resumed shard leaves out (they were run alone)
 	int thorough;
 	const char *mode;      // engine-specific sub-mode
 	const char *prop;      // property id the run is for
